@@ -104,6 +104,12 @@ pub fn vf_parse_u32<'a>(i: &'a [u8]) -> (r: IResult<&'a [u8], u32>)
     ensures fixed_post(i, r, 4), r is Ok ==> r->Ok_0.1 == be32(i@, 0),
 { unimplemented!() }
 
+// `<Vec<u8>>::parse_be` == many0(complete(be_u8)): takes every remaining byte, never fails
+#[verifier::external_body]
+pub fn vf_parse_vec_u8<'a>(i: &'a [u8]) -> (r: IResult<&'a [u8], Vec<u8>>)
+    ensures r is Ok, r->Ok_0.0@.len() == 0, r->Ok_0.1@ == i@,
+{ unimplemented!() }
+
 // ---- std::net::Ipv4Addr (external type) ----------------------------------------------
 #[verifier::external_type_specification]
 #[verifier::external_body]
